@@ -450,6 +450,8 @@ where
                 A::default_or_panic(),
             ),
             ChunkClass::NonDummy(mut chunk) => {
+                let original_chunk = chunk;
+
                 while let Some(next_chunk) = chunk.next() {
                     chunk = next_chunk;
 
@@ -464,7 +466,12 @@ where
                 }
 
                 // there is no chunk that fits, we need a new chunk
-                chunk.append_for(*layout)
+                chunk.append_for(*layout).inspect_err(|_| {
+                    // The allocation failed. Stay in the chunk we were in, so a failed allocation leaves the
+                    // bump allocator as it was. `Mut*` collections rely on this: their prepared allocation
+                    // lives in that chunk and `allocate_prepared*` sets the position of the *current* chunk.
+                    self.chunk.set(original_chunk.raw);
+                })
             }
         }?;
 
